@@ -85,9 +85,36 @@ SD = T("GoSortedDurations", [
     ("tie_sd_Mean", "CM.GoTie.GoSD.go_Mean_eq", "`Mean` = `SD.mean`: int64 sum with wrap-around, truncated division, -1 when empty"),
     ("tie_sd_Percentile", "CM.GoTie.GoSD.go_Percentile_eq", "`Percentile(p)` = `SD.percentile` for every finite p: the two neighbours at floor/ceil of p/100·(n-1) in binary64, weighted; Go's index panic exactly where the model says `none`")])
 
+LL = "CM.GoTie.GoLiveLogic."
+NEVER = T("GoLiveLogic", [
+    ("tie_default_ShouldOpen", LL + "Opens.go_ShouldOpen_eq", "the default opener (closers.go) never opens"),
+    ("tie_default_Prevent", LL + "Opens.go_Prevent_eq", "… and never vetoes"),
+    ("tie_default_Allow", LL + "Closes.go_Allow_eq", "the default closer never admits a probe"),
+    ("tie_default_ShouldClose", LL + "Closes.go_ShouldClose_eq", "… and never closes")])
+OPENER_CFG = T("GoLiveLogic", [
+    ("tie_opener_SetConfigThreadSafe", LL + "Opener.go_SetConfigThreadSafe_eq", "a live reconfiguration of the hystrix opener stores the config and pushes BOTH thresholds into the words `ShouldOpen` reads; the counters are untouched"),
+    ("tie_opener_Config", LL + "Opener.go_Config_eq", "`Config()` returns what was stored")])
+CLOSER_CFG = T("GoLiveLogic", [
+    ("tie_closer_SetConfigThreadSafe", LL + "Closer.go_SetConfigThreadSafe_eq", "a live reconfiguration of the hystrix closer pushes sleep window, probe budget, required successes and the timer hook into the running object"),
+    ("tie_closer_SetConfigNotThreadSafe", LL + "Closer.go_SetConfigNotThreadSafe_eq", "the construction-time one does the same"),
+    ("tie_closer_Config", LL + "Closer.go_Config_eq", "`Config()` returns what was stored")])
+SLO_CFG = T("GoLiveLogic", [
+    ("tie_slo_SetConfigThreadSafe", LL + "Slo.go_SetConfigThreadSafe_eq", "a live reconfiguration of the SLO tracker stores the config and publishes the healthy time"),
+    ("tie_slo_Config", LL + "Slo.go_Config_eq", "`Config()` returns what was stored")])
+
+RPT = T("GoRollingBucketsP", [
+    ("tie_ring_Advance", "CM.GoTie.GoRP.go_Advance_eq", "today's `RollingBuckets.Advance`, over the percentile ring, computes the model's `RP.advance` (`ringPlan`: new last index, slots cleared in order, returned index)")]) + T("GoRollingPercentile", [
+    ("tie_ring_AddDuration", "CM.GoTie.GoRP.go_AddDuration_eq", "`AddDuration` = `RP.add`: ignored for an empty ring and when Advance rejects the instant"),
+    ("tie_ring_clearBucket", "CM.GoTie.GoRP.go_clearBucket_eq", "`clearBucket` = `RP.clearSlot`"),
+    ("tie_ring_Reset", "CM.GoTie.GoRP.go_Reset_eq", "`Reset` = `RP.reset`"),
+    ("tie_ring_SortedDurations", "CM.GoTie.GoRP.go_SortedDurations_eq", "`SortedDurations` / `SnapshotAt` = `RP.snapshot`: every bucket's valid durations, ALL of them, ascending")]) + T("GoDurationsBucket", [
+    ("tie_slot_addDuration", "CM.GoTie.GoRP.go_addDuration_eq", "`durationsBucket.addDuration` = `DSlot.add`: a circular buffer overwriting the oldest"),
+    ("tie_slot_clear", "CM.GoTie.GoRP.go_clear_eq", "`clear` = `DSlot.clear`"),
+    ("tie_slot_Durations", "CM.GoTie.GoRP.go_Durations_eq", "`Durations` = `DSlot.durations`: the first min(count, size) cells")])
+
 PROPS = {
     "C01": ("load shedding: who is admitted is decided by `allowNewRun` / `run`",
-            [C("IsOpen"), C("allowNewRun"), RUN]),
+            [C("IsOpen"), C("allowNewRun"), RUN] + NEVER),
     "C02": ("the built-in openers' method bodies, translated from today's opener.go / closers.go, are the model's functions",
             T("GoHOpener", evs("GoHOpener", "HOpener.onRun") + [
                 ("tie_GoHOpener_Opened", "CM.GoTie.GoHOpener.go_Opened_eq", "`Opened` resets both rolling counters"),
@@ -100,14 +127,14 @@ PROPS = {
                 ("tie_GoConsec_Prevent", "CM.GoTie.GoConsec.go_Prevent_eq", "`Prevent` never vetoes"),
                 ("tie_GoConsec_ShouldOpen", "CM.GoTie.GoConsec.go_ShouldOpen_eq", "`ShouldOpen` compares the run of errors with the threshold"),
                 ("tie_GoConsec_SetConfigThreadSafe", "CM.GoTie.GoConsec.go_SetConfigThreadSafe_eq", "a live reconfiguration replaces the threshold only"),
-                ("tie_GoConsec_SetConfigNotThreadSafe", "CM.GoTie.GoConsec.go_SetConfigNotThreadSafe_eq", "so does the construction-time one")])),
+                ("tie_GoConsec_SetConfigNotThreadSafe", "CM.GoTie.GoConsec.go_SetConfigNotThreadSafe_eq", "so does the construction-time one")]) + OPENER_CFG),
     "C03": ("the hystrix closer's method bodies (closer.go) and its gate (timedcheck.go) are the model's functions",
             T("GoHCloser", evs("GoHCloser", "HCloser.onRun") + [
                 ("tie_GoHCloser_Opened", "CM.GoTie.GoHCloser.go_Opened_eq", "`Opened` zeroes the successes and starts the sleep window"),
                 ("tie_GoHCloser_Closed", "CM.GoTie.GoHCloser.go_Closed_eq", "`Closed` likewise"),
                 ("tie_GoHCloser_Allow", "CM.GoTie.GoHCloser.go_Allow_eq", "`Allow` is the gate's `Check`"),
                 ("tie_GoHCloser_ShouldClose", "CM.GoTie.GoHCloser.go_ShouldClose_eq", "`ShouldClose` compares the successes in a row with the required number")]) + TC +
-            [C("close"), C("checkSuccess")]),
+            [C("close"), C("checkSuccess")] + CLOSER_CFG),
     "C04": ("the gauges and limits: `throttleConcurrentCommands`, the deferred decrements in `run` / `fallback`, the published limits",
             [C("throttleConcurrentCommands"), C("ConcurrentCommands"), C("ConcurrentFallbacks"), RUN, FALLBACK] + LIVECFG),
     "C05": ("the classification chain of `run`",
@@ -119,10 +146,12 @@ PROPS = {
     "C09": ("transitions and their notifications",
             [C("IsOpen"), C("openCircuit"), C("close"), C("attemptToOpen"), C("OpenCircuit"), C("CloseCircuit"), C("checkSuccess"), C("checkErrFailure"), C("checkErrTimeout")] + FAN_CIRC + SETCFG),
     "C10": ("panics: the deferred calls of `run` and `fallback` run on every exit", [RUN, FALLBACK, EXECUTE]),
+    "C11": ("reconfiguration: what each SetConfigThreadSafe writes (circuit, hystrix opener, hystrix closer, SLO tracker) — every setting, nothing else",
+            SETCFG + LIVECFG + OPENER_CFG + CLOSER_CFG + SLO_CFG),
     "C12": ("every timestamp is a reading of the configured clock: all translated functions of circuit.go",
             [C("now"), C("OpenCircuit"), C("CloseCircuit"), RUN, FALLBACK] + ALL),
     "C13": ("the rolling counter: rolling_bucket.go's `Advance` and rolling_counter.go's methods are the model `RC`", ROLL),
-    "C15": ("the snapshot's numbers: rolling_percentile.go's SortedDurations methods are the model `SD`", SD),
+    "C15": ("rolling_percentile.go: the ring of circular buffers is the model `RP` / `DSlot`, the snapshot's numbers are the model `SD`", RPT + SD),
     "C16": ("the gate: timedcheck.go's method bodies are the model `TC`", TC),
     "C17": ("the registry: manager.go's CreateCircuit / GetCircuit / MustCreateCircuit are the model `Mgr`", MGR),
     "C20": ("the collectors' method bodies, translated from today's rolling.go / responsetime.go, are the model's functions",
@@ -140,7 +169,7 @@ PROPS = {
                 ("tie_GoSlo_failure", "CM.GoTie.GoSlo.go_failure_eq", "a fail verdict moves the counter and tells every collector"),
                 ("tie_GoSlo_healthy", "CM.GoTie.GoSlo.go_healthy_eq", "a pass verdict likewise"),
                 ("tie_GoSlo_onRun_slo", "CM.GoTie.GoSlo.onRun_slo", "the tracker part of `SloW.onRun` is `Slo.onRun`"),
-                ("tie_GoSlo_tell_told", "CM.GoTie.GoSlo.tell_told", "each verdict reaches every attached collector exactly once")])),
+                ("tie_GoSlo_tell_told", "CM.GoTie.GoSlo.tell_told", "each verdict reaches every attached collector exactly once")]) + SLO_CFG),
 }
 
 # which regenerated units each property's tie depends on (-> lib/props.py "generated")
@@ -148,7 +177,8 @@ UNITS = {"F_": "gocircuit", "All": "gocircuit", "T_GoHOpener": "gohopener", "T_G
          "T_GoFbStats": "gofbstats", "T_GoSlo": "goslo", "T_GoTimedCheck": "gotimedcheck", "T_GoLiveCfg": "golivecfg",
          "T_GoFanRun": "gofanrun", "T_GoFanFb": "gofanfb", "T_GoFanCirc": "gofancirc", "T_GoSetCfg": "gosetcfg", "T_GoStream": "gostream", "T_GoRollingBuckets": "gorollingbuckets", "T_GoRollingCounter": "gorollingcounter",
          "T_GoManager": "gomanager", "T_GoSortedDurations": "gosorteddurations", "T_GoRollingBucketsP": "gorollingbucketsp",
-         "T_GoRollingPercentile": "gorollingpercentile", "T_GoDurationsBucket": "godurationsbucket"}
+         "T_GoRollingPercentile": "gorollingpercentile", "T_GoDurationsBucket": "godurationsbucket",
+         "T_GoLiveLogic": ["goneveropens", "gonevercloses", "gohopenercfg", "gohclosercfg", "goslocfg"]}
 
 def units_of(prop):
     us = []
